@@ -35,6 +35,7 @@ structure DState where
   lbProbe : Option String := none           -- name of the backend whose active probe is held in flight
   pxIds : Bool × Bool := (false, false)     -- request-id / trace features of the `px` front end
   pxBase : String := ""                      -- backend base path
+  rwChain : Option String := none            -- the chain held by `rws` for the following `rw @` exchanges
 
 def words (line : String) : List String :=
   (line.splitOn " ").filter (fun w => w != "")
@@ -72,6 +73,8 @@ def cbNote (s : DState) (y' : CB.Sys) : DState :=
 def cbStep (s : DState) : List String → DState × String
   -- what `halfopen_budget` promises for every interleaving of the callers
   | ["race", _callers, _mx, _rounds] => (s, "within-budget")
+  -- `never_stuck` + `lockorder_sound` / `no_callback_under_lock`: observers run with no lock held
+  | ["notifyrace", _callers, _rounds] => (s, "live")
   | ["new", ft, st, mx, iv, to] =>
     match ft.toNat?, st.toNat?, mx.toNat?, iv.toNat?, to.toNat? with
     | some ft, some st, some mx, some iv, some to =>
@@ -180,6 +183,9 @@ def lbStep (s : DState) : List String → DState × String
         match now.toNat? with
         | some t => (s, if y.pool.any (fun o => !o.b.inWindow t) then "complete" else "n/a")
         | none => (s, "bad-op")
+      | "ejectrace", [_now, _rounds] =>
+        -- `eject_survives_expiry_check`: in either order of the two critical sections
+        (s, if y.pool.isEmpty then "n/a" else "consistent")
       | "affconc", [now, _workers, _k] =>
         -- `affinity` / `hash_stateless`: the pick is a function of the client address and the pool
         match now.toNat? with
@@ -344,6 +350,9 @@ def parseRwOp (t : String) : Option Http.Op :=
 
 def rwStep : List String → String
   | [chain, method, ae, key, reqlen, mode, opsTok] =>
+    -- an exchange the inner handler cuts short (`ab`): only the NEXT exchange is compared — the
+    -- plugin transducers keep no state between exchanges
+    if (opsTok.splitOn ";").contains "ab" then "aborted" else
     let plugins := if chain == "none" then some [] else (chain.splitOn "+").mapM parsePlugin
     let ops := (opsTok.splitOn ";").mapM parseRwOp
     match plugins, ops, reqlen.toNat? with
@@ -646,6 +655,9 @@ def pxStep (s : DState) : List String → DState × String
 
 def step (s : DState) (line : String) : DState × String :=
   match words line with
+  | ["rws", chain] =>
+    if chain == "none" || ((chain.splitOn "+").mapM parsePlugin).isSome then ({ s with rwChain := some chain }, "ok") else (s, "bad-op")
+  | "rw" :: "@" :: rest => (s, match s.rwChain with | some c => rwStep (c :: rest) | none => "bad-op")
   | "rw" :: rest => (s, rwStep rest)
   | "px" :: rest => pxStep s rest
   -- C03: what the theorems promise for every fault history (Helios.LB.recovers, the C13
@@ -664,6 +676,8 @@ def step (s : DState) (line : String) : DState × String :=
   | ["stop", _nb, _pm, _du, _st, pool] =>
     -- what the protocol theorems (Helios.Shut.stop_safe / stop_no_deadlock) promise for every schedule
     (s, "stop returned within=true late=0" ++ (if pool == "1" then " pooledClosed=true" else ""))
+  -- `stop_safe` + fact `gracefulStopAlways`: the balancer is stopped on every path of the shutdown
+  | ["gs", _stuck] => (s, "gs returned probesAfter=0")
   | ["wshold", _variant, _hs, _hm] => (s, "ws ok 1")
   | ["ws", _chain, sizes] => (s, s!"ws ok {(sizes.splitOn ",").length}")
   | ["cfg", _path, compact] => (s, cfgStep compact)
